@@ -3,6 +3,7 @@ package ext4
 import (
 	"io"
 
+	"github.com/diskfs/go-diskfs/backend"
 	"github.com/diskfs/go-diskfs/internal/vp"
 	"github.com/diskfs/go-diskfs/internal/vp/vpdev"
 )
@@ -12,8 +13,24 @@ import (
 // produces them (extent i starts at file block = sum of the previous counts, count >= 1, disk
 // ranges pairwise disjoint), covering at least ceil(size/blocksize) blocks.
 
+// c04PatDev is a device whose byte at offset x is byte(x) and which records every ReadAt
+// (offset, length). Together with the exact assertion on the recorded offsets the 8-bit pattern
+// decides the placement of the copied bytes.
+type c04PatDev struct {
+	vpdev.MemDev
+	rOff []int64
+	rLen []int
+}
+
+func (d *c04PatDev) ReadAt(p []byte, off int64) (int, error) {
+	d.rOff = append(d.rOff, off)
+	d.rLen = append(d.rLen, len(p))
+	vp.FillFunc(p, func(i int) byte { return byte(off + int64(i)) })
+	return len(p), nil
+}
+
 // c04Ext builds K extents with symbolic counts and starting blocks.
-func c04Ext(k int, maxCount uint16, maxStart uint64) (extents, uint64) {
+func c04Ext(k int, maxCount uint16, maxStart uint64, disjoint bool) (extents, uint64) {
 	var es extents
 	var fb uint32
 	names := [][2]string{{"c0", "s0"}, {"c1", "s1"}, {"c2", "s2"}, {"c3", "s3"}}
@@ -28,7 +45,7 @@ func c04Ext(k int, maxCount uint16, maxStart uint64) (extents, uint64) {
 		fb += uint32(c)
 	}
 	// disk ranges pairwise disjoint
-	for i := 0; i < k; i++ {
+	for i := 0; disjoint && i < k; i++ {
 		for j := i + 1; j < k; j++ {
 			iBeforeJ := es[i].startingBlock+uint64(es[i].count) <= es[j].startingBlock
 			jBeforeI := es[j].startingBlock+uint64(es[j].count) <= es[i].startingBlock
@@ -53,7 +70,7 @@ func c04DiskPos(es extents, bs int64, p int64) int64 {
 	return r
 }
 
-func c04File(dev *vpdev.MemDev, bs uint32, es extents, size uint64, off int64, rw bool) *File {
+func c04File(dev backend.Storage, bs uint32, es extents, size uint64, off int64, rw bool) *File {
 	fsys := &FileSystem{superblock: &superblock{blockSize: bs}, backend: dev}
 	return &File{
 		inode:       &inode{number: 12, size: size, fileType: fileTypeRegularFile, flags: &inodeFlags{usesExtents: true}},
@@ -70,7 +87,7 @@ func c04File(dev *vpdev.MemDev, bs uint32, es extents, size uint64, off int64, r
 // content mode (bs small): every delivered byte is compared with the device byte the
 // specification maps it to.
 func c04ReadMap(k int, bs uint32, maxCount uint16, maxStart uint64, maxLen int) {
-	es, blocks := c04Ext(k, maxCount, maxStart)
+	es, blocks := c04Ext(k, maxCount, maxStart, false)
 	size := vp.U64("size")
 	vp.Assume(size <= blocks*uint64(bs)) // extents cover the file
 	off := vp.I64("off")
@@ -79,8 +96,7 @@ func c04ReadMap(k int, bs uint32, maxCount uint16, maxStart uint64, maxLen int) 
 	n := vp.Int("len")
 	vp.Assume(n >= 0)
 	vp.Assume(n <= maxLen)
-	dev := vpdev.NewMemDev("disk", -1)
-	dev.UF = true
+	dev := &c04PatDev{}
 	dev.NoWrites = true
 	fl := c04File(dev, bs, es, size, off, false)
 	vp.AllocCap(maxLen)
@@ -109,9 +125,21 @@ func c04ReadMap(k int, bs uint32, maxCount uint16, maxStart uint64, maxLen int) 
 		vp.Assert(err == io.EOF, "read at or after the end reports io.EOF")
 	}
 	vp.Assert(fl.offset == off+int64(got), "handle offset advances by the bytes delivered")
+	// the device reads issued: consecutive pieces of [off, off+got), each inside one extent, each
+	// at the device offset the extent list maps its file position to
+	pos := off
+	for c := range dev.rOff {
+		l := int64(dev.rLen[c])
+		if l > 0 {
+			vp.Assert(dev.rOff[c] == c04DiskPos(es, int64(bs), pos), "device read starts where the extent list maps the file position")
+			vp.Assert(dev.rOff[c]+l-1 == c04DiskPos(es, int64(bs), pos+l-1), "device read stays inside one extent")
+		}
+		pos += l
+	}
+	vp.Assert(pos == off+int64(got), "bytes delivered = bytes read from the device")
 	for j := 0; j < maxLen; j++ {
 		if j < got {
-			vp.Assert(buf[j] == dev.ByteAt(c04DiskPos(es, int64(bs), off+int64(j))), "delivered byte = device byte the extent list maps the position to")
+			vp.Assert(buf[j] == byte(c04DiskPos(es, int64(bs), off+int64(j))), "delivered byte = device byte the extent list maps the position to")
 		}
 	}
 	if int64(got) == want {
